@@ -33,6 +33,17 @@ class DummyTask:
         return True
 
 
+class _DummyWS:
+    def __init__(self, aio):
+        self.aio = aio
+
+    def close(self):
+        if self.aio:
+            async def c():
+                return None
+            return c()
+
+
 class ClientHarness:
     def __init__(self, aio=False, loop=None, bg='inline', **kwargs):
         socketio = core.bootstrap()
@@ -65,6 +76,8 @@ class ClientHarness:
         self.sleeps = []
         self.on_wait = None
         self.swallowed = []
+        self.started = []         # names of background tasks started
+        self.tasks = []
         self.n_conn = 0
         from .eio_server import _RecLogger
         eio.logger = _RecLogger(self)
@@ -81,7 +94,9 @@ class ClientHarness:
 
             def _start_task(target, *args, **kwargs):
                 import asyncio
+                h.started.append(getattr(target, '__name__', '?'))
                 task = asyncio.ensure_future(target(*args, **kwargs))
+                h.tasks.append((getattr(target, '__name__', '?'), task))
 
                 def done(t):
                     if not t.cancelled() and t.exception() is not None:
@@ -122,6 +137,7 @@ class ClientHarness:
         eio.sid = 'eio-%d' % self.n_conn
         eio.upgrades = []
         eio.current_transport = eio.transports[0]
+        eio.ws = _DummyWS(self.aio)
         eio.state = 'connected'
 
     def _do_connect(self, url, headers, engineio_path):
@@ -172,6 +188,7 @@ class ClientHarness:
     def _start_bg(self, target, *args, **kwargs):
         hnd = BgHandle(self, target, args, kwargs)
         name = getattr(target, '__name__', '')
+        self.started.append(name)
         if self.bg_mode == 'inline' and name != '_handle_reconnect':
             hnd.run()
         else:
@@ -216,10 +233,19 @@ class ClientHarness:
         """Transport loss: the tail of the real read loop."""
         eio = self.eio
         if eio.state == 'connected':
-            self.do(eio._trigger_event('disconnect',
-                                       self.reason.TRANSPORT_ERROR,
-                                       run_async=False))
-            self.do(eio._reset())
+            if self.aio:
+                async def tail():
+                    # one task, like the read loop: no other task runs
+                    # between the notification and the reset
+                    await eio._trigger_event('disconnect',
+                                             self.reason.TRANSPORT_ERROR,
+                                             run_async=False)
+                    await eio._reset()
+                self.do(tail())
+            else:
+                eio._trigger_event('disconnect', self.reason.TRANSPORT_ERROR,
+                                   run_async=False)
+                eio._reset()
         if self.aio:
             self.loop.run_until_idle()
 
